@@ -35,7 +35,7 @@ func recLine(ts int64, dur, tot, st int, m, u, i, c string, internal bool) strin
 
 // urlPool builds the URLs a stream draws from: families host/p/<id>[/q/<id>] whose fan-out crosses the
 // threshold at one or two levels, declared {param} endpoints with literal siblings, a few fixed URLs.
-func urlPool(r *prng.R, thr int, known *[]string) []string {
+func urlPool(r *prng.R, thr int, known *[]string, maxFam int, extras bool) []string {
 	var pool []string
 	host := prng.Pick(r, hosts)
 	ids := func(n int) []string {
@@ -45,7 +45,7 @@ func urlPool(r *prng.R, thr int, known *[]string) []string {
 		}
 		return out
 	}
-	nfam := r.Range(1, 3)
+	nfam := r.Range(1, maxFam)
 	for f := 0; f < nfam; f++ {
 		base := fmt.Sprintf("%s/%s", host, prng.Pick(r, []string{"p", "users", "v1/items", "orders"}))
 		switch r.Intn(5) {
@@ -58,9 +58,6 @@ func urlPool(r *prng.R, thr int, known *[]string) []string {
 			for _, id := range ids(thr + r.Intn(2)) {
 				for _, id2 := range ids(r.Range(1, thr+1)) {
 					pool = append(pool, base+"/"+id+"/"+sub+"/"+id2)
-				}
-				if r.Chance(40) {
-					pool = append(pool, base+"/"+id)
 				}
 			}
 		case 2: // ids followed by differing literal tails (they converge a second time)
@@ -96,29 +93,89 @@ func urlPool(r *prng.R, thr int, known *[]string) []string {
 			}
 		}
 	}
-	pool = append(pool, host+"/health", host, prng.Pick(r, hosts)+"/static/app.js")
+	if extras || len(pool) == 0 {
+		pool = append(pool, host+"/health", host, host+"/static/app.js")
+	}
 	return pool
 }
 
+// properPrefixes returns host/p1, host/p1/p2, ... (without u itself).
+func properPrefixes(u string) []string {
+	parts := strings.Split(u, "/")
+	var out []string
+	for d := 2; d < len(parts); d++ {
+		out = append(out, strings.Join(parts[:d], "/"))
+	}
+	return out
+}
+
+func closeKnown(known []string) []string {
+	var out []string
+	seen := map[string]bool{}
+	for _, k := range known {
+		for _, p := range append(properPrefixes(k), k) {
+			if !seen[p] {
+				seen[p] = true
+				out = append(out, p)
+			}
+		}
+	}
+	return out
+}
+
+// genStream kinds:
+//   multi  : several URL families + fixed URLs under one host; the stream is PREFIX-CLOSED (every URL is preceded by
+//            its path prefixes, declared endpoints likewise) so that every constant tree node carries a value from
+//            its creation — the real tree copies `nodes[0].Value` of a map-ordered slice when it merges nodes, and
+//            mixed values would make the implementation's outcome depend on Go map iteration order (see notes)
+//   single : one family, not prefix-closed, no fan-out above the family
+//   stale  : fixed shape that deterministically leaves a stale key (finding F15c), random ids
+//   bad    : single + one URL the tree refuses (finding F15a)
+//   delim  : URLs containing the METHOD:::URL delimiter (finding F15b)
+//   weird  : no convergence; trimming, host/path confusion, trailing wildcard
 func genStream(r *prng.R, maxLen int, kind string) stream {
 	s := stream{thr: r.Range(2, 4)}
 	if r.Chance(10) {
 		s.thr = 1
 	}
 	var pool []string
+	closed := false
 	switch kind {
-	case "weird": // no convergence: shapes where insert and lookup walk differently, trailing wildcard, odd trimming
+	case "weird":
 		s.thr = 50
 		pool = []string{"a.com/x", "a/com/x", "a.com/x/*", "a.com/x/y", "a.com/x./", "/a.com/x/", "a.com/x/.", "a.com", "a.com/v1.2/z", "a.com/x/y/z"}
+	case "multi":
+		pool = urlPool(r, s.thr, &s.known, 3, true)
+		s.known = closeKnown(s.known)
+		closed = true
+	case "stale":
+		s.thr = 2
+		h := prng.Pick(r, hosts)
+		id := func() string { return fmt.Sprint(100 + r.Intn(900)) }
+		a, b := id(), id()
+		for b == a {
+			b = id()
+		}
+		pool = nil
+		fixed := []string{h + "/p/" + id(), h + "/p/" + id() + "0", h + "/p/" + id() + "00", h + "/u/" + a + "/x", h + "/u/" + b + "/x", h + "/s/" + id() + "/y"}
+		ts := int64(1_700_000_000_000)
+		for _, u := range fixed {
+			ts += int64(r.Intn(2500))
+			s.recs = append(s.recs, recLine(ts, r.Intn(5000), 5000+r.Intn(100), prng.Pick(r, statuses), "GET", u,
+				prng.Pick(r, interceptors), prng.Pick(r, consumers), false))
+		}
+		s.n = len(s.recs)
+		return s
 	default:
-		pool = urlPool(r, s.thr, &s.known)
+		pool = urlPool(r, s.thr, &s.known, 1, false)
 	}
 	if kind == "bad" { // F15a class
 		pool = append(pool, prng.Pick(r, []string{"a.com//x", "a.com/p/*/q", "a.com/p/{x}", "a.com/p//", "a..com/p"}))
 	}
 	n := r.Range(1, maxLen)
 	ts := int64(1_700_000_000_000) + int64(r.Intn(1000))
-	for i := 0; i < n; i++ {
+	seen := map[string]bool{}
+	emit := func(u string, internal bool) {
 		switch r.Intn(4) {
 		case 0:
 			ts += int64(r.Intn(3000))
@@ -132,8 +189,22 @@ func genStream(r *prng.R, maxLen int, kind string) stream {
 			dur = r.Intn(3_000_000)
 		}
 		tot := dur + r.Intn(200)
-		s.recs = append(s.recs, recLine(ts, dur, tot, prng.Pick(r, statuses), prng.Pick(r, methods), prng.Pick(r, pool),
-			prng.Pick(r, interceptors), prng.Pick(r, consumers), r.Chance(8)))
+		s.recs = append(s.recs, recLine(ts, dur, tot, prng.Pick(r, statuses), prng.Pick(r, methods), u,
+			prng.Pick(r, interceptors), prng.Pick(r, consumers), internal))
+	}
+	for len(s.recs) < n {
+		u := prng.Pick(r, pool)
+		internal := r.Chance(8)
+		if closed && !internal {
+			for _, p := range properPrefixes(u) {
+				if !seen[p] {
+					seen[p] = true
+					emit(p, false)
+				}
+			}
+			seen[u] = true
+		}
+		emit(u, internal)
 	}
 	if kind == "delim" { // F15b class: two URLs that collide after METHOD:::URL is split back; identical records
 		s.thr = 50
@@ -181,11 +252,17 @@ func gen(r *prng.R, f proto.Flags, emit func(proto.Case)) {
 		n := 500 * f.Budget
 		for k := 0; k < n; k++ {
 			rr := r.Fork()
-			kind := "normal"
-			if k%25 == 24 {
+			kind := "multi"
+			switch {
+			case k%25 == 24:
 				kind = "weird"
+			case k%25 == 23:
+				kind = "stale"
+			case k%2 == 1:
+				kind = "single"
 			}
 			s := genStream(rr, 8, kind)
+			s.recs = s.recs[:min(len(s.recs), 8)]
 			for len(s.recs) < 8 {
 				s.recs = append(s.recs, s.recs[rr.Intn(len(s.recs))])
 			}
@@ -214,8 +291,12 @@ func gen(r *prng.R, f proto.Flags, emit func(proto.Case)) {
 	n := 300 * f.Budget
 	for k := 0; k < n; k++ {
 		rr := r.Fork()
-		kind := "normal"
+		kind := "multi"
 		switch {
+		case k%20 < 7:
+			kind = "single"
+		case k%20 == 16:
+			kind = "stale"
 		case k%20 == 17:
 			kind = "bad"
 		case k%20 == 18:
